@@ -9,6 +9,7 @@ facts below are therefore additional guarantees for generator instances, not mis
 -/
 import Rl4co.Props.C18.Routing
 import Rl4co.Props.C05.Pctsp
+import Rl4co.Props.C02.Pctsp
 
 namespace Rl4co.Pctsp
 open Rl4co.Spec.Pctsp Rl4co.Prize
@@ -87,7 +88,7 @@ theorem collected_le_twice_expected (i : Inst) (hg : GenWF i) (as : List Nat) :
   apply sumTo_le_sumTo
   intro k hk
   by_cases hm : k + 1 ∈ as
-  · simp only [hm, if_true, realPrize]
+  · simp only [hm, if_true, realPrize_eq]
     have h1 := hg.sto_le (k + 1) (by omega) (by omega)
     have h2 := hg.det_nonneg (k + 1) (by omega) (by omega)
     cases i.stochastic <;> simp <;> omega
@@ -95,7 +96,7 @@ theorem collected_le_twice_expected (i : Inst) (hg : GenWF i) (as : List Nat) :
 
 theorem collected_eq_expected_of_det (i : Inst) (hs : i.stochastic = false) (as : List Nat) :
     collected i as = expectedCollected i as := by
-  simp [collected, expectedCollected, realPrize, hs]
+  simp [collected, expectedCollected, realPrize_eq, hs]
 
 /-- **stochastic vs deterministic prize**: a finished mask-confined SPCTSP/PCTSP episode on a
 generator-shaped instance that leaves a customer unvisited has collected an EXPECTED prize of at least
@@ -124,6 +125,13 @@ theorem admitted_customers_indep (i i' : Inst) (hn : i'.n = i.n) :
     have hm : env.mask i' s' c = env.mask i s c := by simp [env, mask, hc0, hv]
     have ha : env.nAct i' = env.nAct i := by simp [env, hn]
     simp only [admitted, ih', hm, ha]
+
+/-- **C18 → C02 chain (PCTSP / SPCTSP)**: every generator instance — indeed every instance — has no dead end
+in any reachable state and finishes within `max (n+1) 2` steps; C02 needs no well-formedness here. -/
+theorem gen_c02 (i : Inst) (_hg : GenWF i) :
+    (∀ s : State, Reach env i s → ∃ a, a < env.nAct i ∧ env.mask i s a = true) ∧
+    (∀ {as : List Nat} {s : State}, RunND env i (env.reset i) as s → as.length ≤ max (i.n + 1) 2) :=
+  ⟨fun s hr => mask_nonempty i s hr, fun h => steps_le i h⟩
 
 /-- Non-vacuity: a generator-shaped instance (n = 2, q = 4, draws 3/4, 1/4; stochastic factors 2/4, 3/4). -/
 example : GenWF (genInst 2 4 (3, 2) (fun j => if j = 1 then 3 else 1) (fun j => if j = 1 then 2 else 3)
